@@ -199,5 +199,7 @@ var (
 	FamDeadQ      = Opts{Procs: []int{1, 2, 4}, Actions: [2]int{0, 2}, Ops: "pppd", OutKinds: []int{2}, Failures: true, DeadQ: true, Sources: [2]int{1, 2}, Streams: [2]int{1, 2}, Events: [2]int{4, 30}}
 	// a failed batch routed to the dead queue that contains the parent of a split
 	FamDeadQSplit = Opts{Procs: []int{1, 2, 4}, Actions: [2]int{1, 2}, Ops: "ppp", Split: true, SplitOften: true, OutKinds: []int{2}, Failures: true, DeadQ: true, Sources: [2]int{1, 2}, Streams: [2]int{1, 2}, Events: [2]int{4, 20}}
-	FamSpread     = Opts{Procs: []int{2, 4, 8}, Actions: [2]int{0, 2}, Ops: "pppd", OutKinds: []int{0, 1}, Spread: true, Sources: [2]int{2, 4}, Streams: [2]int{1, 1}, Events: [2]int{10, 40}}
+	// spread routing with a split action: children and their parent travel through the kafka-like input's Commit path
+	FamSpreadSplit = Opts{Procs: []int{2, 4}, Actions: [2]int{1, 2}, Ops: "ppp", Split: true, SplitOften: true, OutKinds: []int{0, 1}, Spread: true, Sources: [2]int{2, 3}, Streams: [2]int{1, 1}, Events: [2]int{6, 25}}
+	FamSpread      = Opts{Procs: []int{2, 4, 8}, Actions: [2]int{0, 2}, Ops: "pppd", OutKinds: []int{0, 1}, Spread: true, Sources: [2]int{2, 4}, Streams: [2]int{1, 1}, Events: [2]int{10, 40}}
 )
